@@ -25,7 +25,11 @@
     0..length; past the end the Utils function refuses and touches nothing); clauses 15-17 below are their
     refinement of the forest model, clauses 8-9 the agreement of the list functions.  What remains
     presupposed: [overwrite_item] (replacement of the document root in place: frees the root's strings and
-    children, then memcpy) — no forest-level model of it exists. *)
+    children, then memcpy) — no forest-level model of it exists.
+
+    END TO END.  TierBridgeEndToEnd.v / TierBridgeEndToEndStr.v compose each clause with its C06 / C19 / Utils
+    simulation lemma: heap-level code on [WF h F] ↦ value-level primitive on the reified container, with no
+    [spec_*] left in the statement (clause 13 below is already of that form). *)
 From CJ Require Import Base Dbl Heap Forest ForestLemmas CoreSpec CoreRefineDupBase CoreRefineDupTree CoreRefineDupValue.
 From CJ Require Import TierBridgeDefs TierBridgeSort TierBridgeForest TierBridgeLemmas TierBridgeSortHeap.
 From CJ Require Import CoreDefs CoreRefineBase TierBridgeUtilsDefs TierBridgeUtils.
